@@ -1,6 +1,6 @@
 (* Data/RefK.v — refinement Map -> Spec for strings (KV): both models keep one association list
    key -> value; every command gives the same reply and the same list. *)
-From ZV Require Import Common.Bytes Common.BytesFacts Data.Consts Data.Base Data.BaseFacts Data.MapEq Data.MapK Data.SpecK.
+From ZV Require Import Common.Bytes Common.BytesFacts Data.Consts Data.Base Data.BaseFacts Data.MapEq Data.Exp Data.ExpFacts Data.MapK Data.SpecK.
 From Coq Require Import Lia ZifyBool.
 Open Scope Z_scope.
 
@@ -13,81 +13,111 @@ Proof.
   destruct (bytes_eqb k k2); [discriminate|]. intros H. rewrite IH; [reflexivity|exact H].
 Qed.
 
-Lemma del_keys_dedup ks : forall seen (m : list (bytes * bytes)), NoDup (map fst m) ->
-  (forall k, In k seen -> key_ok k && amem bytes_eqb k m = false) ->
-  del_keys ks m = del_keys (dedup seen ks) m.
-Proof.
-  induction ks as [|k r IH]; intros seen m ND Hs; cbn [del_keys dedup]; [reflexivity|].
-  destruct (bytes_mem k seen) eqn:M.
-  - apply bytes_mem_In in M. rewrite (Hs k M). apply IH; assumption.
-  - cbn [del_keys]. destruct (key_ok k && amem bytes_eqb k m) eqn:E.
-    + rewrite (IH (k :: seen) (adel bytes_eqb k m)); [reflexivity|apply (nodup_adel bytes_eqb); exact ND|].
-      intros x [<-|Hx]; unfold amem; rewrite get_del by exact ND.
-      * rewrite bytes_eqb_refl. apply andb_false_r.
-      * destruct (bytes_eqb x k); [apply andb_false_r|]. apply (Hs x Hx).
-    + apply IH; [exact ND|]. intros x [<-|Hx]; [exact E|apply Hs; exact Hx].
-Qed.
+Section K.
+  Variable compact : bool.
 
-Lemma del_keys_nodup ks : NoDup ks -> forall (m : list (bytes * bytes)), NoDup (map fst m) ->
-  del_keys ks m =
-  (fold_left (fun m k => if key_ok k then adel bytes_eqb k m else m) ks m,
-   Z.of_nat (length (filter (fun k => key_ok k && amem bytes_eqb k m) ks))).
-Proof.
-  induction ks as [|k r IH]; intros NDk m ND; cbn [del_keys fold_left filter]; [reflexivity|].
-  inversion NDk as [|? ? Hn NDk']; subst.
-  destruct (key_ok k && amem bytes_eqb k m) eqn:E.
-  - apply andb_true_iff in E. destruct E as [K A]. rewrite K.
-    rewrite (IH NDk' (adel bytes_eqb k m)); [|apply (nodup_adel bytes_eqb); exact ND].
-    assert (FE : filter (fun k0 => key_ok k0 && amem bytes_eqb k0 (adel bytes_eqb k m)) r =
-                 filter (fun k0 => key_ok k0 && amem bytes_eqb k0 m) r).
-    { clear IH NDk NDk'. induction r as [|x l IHl]; cbn; [reflexivity|].
-      assert (amem bytes_eqb x (adel bytes_eqb k m) = amem bytes_eqb x m) as ->.
-      { unfold amem. rewrite get_del by exact ND.
-        assert (bytes_eqb x k = false) as -> by (apply beq_false_ne; intros ->; apply Hn; left; reflexivity). reflexivity. }
-      rewrite IHl; [reflexivity|]. intros H; apply Hn; right; exact H. }
-    rewrite FE. cbn [length]. f_equal. lia.
-  - rewrite (IH NDk' m ND). f_equal.
-    destruct (key_ok k) eqn:K; [|reflexivity]. cbn [andb] in E. rewrite (adel_absent k m E). reflexivity.
-Qed.
+  Lemma present_klive t k (m : kstore) : present compact t k m = klive compact t k m.
+  Proof. reflexivity. Qed.
+  Lemma live_some t k (m : kstore) :
+    match kget compact t k m with Some _ => true | None => false end = is_present compact t m k.
+  Proof.
+    unfold kget, is_present, klive, present, kstore, sstore, kvrec, sval in *. destruct (aget bytes_eqb k m) as [[e v]|]; [|reflexivity].
+    destruct (dead compact e t); reflexivity.
+  Qed.
+  Lemma present_amem t k (m : sstore) : is_present compact t m k = true -> amem bytes_eqb k m = true.
+  Proof. unfold is_present, present, amem, kstore, sstore, kvrec, sval in *. destruct (aget bytes_eqb k m); [reflexivity|discriminate]. Qed.
+  Lemma present_adel t k x (m : sstore) : NoDup (map fst m) -> x <> k ->
+    is_present compact t (adel bytes_eqb k m) x = is_present compact t m x.
+  Proof.
+    intros ND N. unfold is_present, present, kstore, sstore, kvrec, sval in *.
+    rewrite get_del by exact ND. rewrite (beq_false_ne x k N). reflexivity.
+  Qed.
 
-Theorem kstep_ref ts c (m : list (bytes * bytes)) : NoDup (map fst m) ->
-  MapK.kstep ts c m = SpecK.kstep c m.
-Proof.
-  intros ND. destruct c as [k v|k v|k v|k d|k v|k off v|ks|]; cbn [MapK.kstep SpecK.kstep]; unfold kget, kstore, kvrec in *; try reflexivity.
-  - (* setnx *) unfold kget, amem. destruct (negb (value_ok v) || negb (key_ok k)); [reflexivity|]. destruct (aget bytes_eqb k m); reflexivity.
-  - (* append *) unfold kget. destruct (negb (key_ok k)); [reflexivity|].
-    destruct (aget bytes_eqb k m) as [old|]; destruct v; reflexivity.
-  - (* setrange *) unfold kget. destruct ((off <? 0) || (max_value_size <? off)); [reflexivity|].
-    destruct v as [|b v']; [destruct (negb (key_ok k)); [reflexivity|]; destruct (aget bytes_eqb k m); reflexivity|].
-    destruct (max_value_size <? blen (b :: v') + off); [reflexivity|]. cbn [orb]. destruct (negb (key_ok k)); reflexivity.
-  - (* del *)
-    rewrite (del_keys_dedup ks [] m ND) by (intros k []).
-    rewrite (del_keys_nodup (dedup [] ks) (dedup_NoDup _ _) m ND). reflexivity.
-Qed.
+  Lemma del_keys_dedup t ks : forall seen (m : sstore), NoDup (map fst m) ->
+    (forall k, In k seen -> key_ok k && amem bytes_eqb k m = false) ->
+    del_keys compact t ks m = del_keys compact t (dedup seen ks) m.
+  Proof.
+    induction ks as [|k r IH]; intros seen m ND Hs; cbn [del_keys dedup]; [reflexivity|].
+    destruct (bytes_mem k seen) eqn:M.
+    - apply bytes_mem_In in M. rewrite (Hs k M). apply IH; assumption.
+    - cbn [del_keys]. destruct (key_ok k && amem bytes_eqb k m) eqn:E.
+      + rewrite (IH (k :: seen) (adel bytes_eqb k m)); [reflexivity|apply (nodup_adel bytes_eqb); exact ND|].
+        intros x [<-|Hx]; unfold amem; rewrite get_del by exact ND.
+        * rewrite bytes_eqb_refl. apply andb_false_r.
+        * destruct (bytes_eqb x k); [apply andb_false_r|]. apply (Hs x Hx).
+      + apply IH; [exact ND|]. intros x [<-|Hx]; [exact E|apply Hs; exact Hx].
+  Qed.
 
-Lemma kstep_nodup c (m : list (bytes * bytes)) : NoDup (map fst m) -> NoDup (map fst (fst (SpecK.kstep c m))).
-Proof.
-  intros ND. assert (P : forall k v, NoDup (map fst (aput bytes_eqb k v m))) by (intros; apply (nodup_aput bytes_eqb bytes_eqb_eq); exact ND).
-  destruct c as [k v|k v|k v|k d|k v|k off v|ks|]; cbn [SpecK.kstep]; try exact ND.
-  - destruct (negb (key_ok k) || negb (value_ok v)); cbn [fst]; auto.
-  - destruct (negb (value_ok v) || negb (key_ok k)); cbn [fst]; auto. destruct (amem bytes_eqb k m); cbn [fst]; auto.
-  - destruct (negb (value_ok v) || negb (key_ok k)); cbn [fst]; auto.
-  - destruct (negb (key_ok k)); cbn [fst]; auto.
-    destruct (match aget bytes_eqb k m with Some b => parse_int64 b | None => Some 0 end); cbn [fst]; auto.
-    destruct (negb (in_int64 (z + d))); cbn [fst]; auto.
-  - destruct (negb (key_ok k)); cbn [fst]; auto.
-    destruct (aget bytes_eqb k m); destruct v; cbn [fst]; auto;
-      match goal with |- context [if ?b then _ else _] => destruct b end; cbn [fst]; auto.
-  - destruct ((off <? 0) || (max_value_size <? off)); [exact ND|].
-    destruct v; [destruct (negb (key_ok k)); exact ND|].
-    destruct ((max_value_size <? blen (n :: v) + off) || negb (key_ok k)); cbn [fst]; auto.
-  - rewrite (del_keys_dedup ks [] m ND) by (intros k []).
-    rewrite (del_keys_nodup (dedup [] ks) (dedup_NoDup _ _) m ND). cbn [fst].
-    generalize (dedup [] ks). intros l. revert m ND P. induction l as [|x l IH]; intros m ND P; cbn; [exact ND|].
-    apply IH.
-    + destruct (key_ok x); [apply (nodup_adel bytes_eqb); exact ND|exact ND].
-    + intros k v. apply (nodup_aput bytes_eqb bytes_eqb_eq). destruct (key_ok x); [apply (nodup_adel bytes_eqb); exact ND|exact ND].
-Qed.
+  Lemma del_keys_nodup t ks : NoDup ks -> forall (m : sstore), NoDup (map fst m) ->
+    del_keys compact t ks m =
+    (fold_left (fun m k => if key_ok k then adel bytes_eqb k m else m) ks m,
+     Z.of_nat (length (filter (fun k => key_ok k && is_present compact t m k) ks))).
+  Proof.
+    induction ks as [|k r IH]; intros NDk m ND; cbn [del_keys fold_left filter]; [reflexivity|].
+    inversion NDk as [|? ? Hn NDk']; subst.
+    destruct (key_ok k && amem bytes_eqb k m) eqn:E.
+    - apply andb_true_iff in E. destruct E as [K A]. rewrite K.
+      rewrite (IH NDk' (adel bytes_eqb k m)); [|apply (nodup_adel bytes_eqb); exact ND].
+      assert (FE : filter (fun k0 => key_ok k0 && is_present compact t (adel bytes_eqb k m) k0) r =
+                   filter (fun k0 => key_ok k0 && is_present compact t m k0) r).
+      { clear IH NDk NDk'. induction r as [|x l IHl]; cbn [filter]; [reflexivity|].
+        rewrite (present_adel t k x m ND) by (intros ->; apply Hn; left; reflexivity).
+        rewrite IHl; [reflexivity|]. intros H; apply Hn; right; exact H. }
+      rewrite FE. cbn [andb]. destruct (is_present compact t m k); cbn [length]; f_equal; lia.
+    - rewrite (IH NDk' m ND).
+      assert (key_ok k && is_present compact t m k = false) as ->.
+      { destruct (key_ok k); [|reflexivity]. cbn [andb] in *. destruct (is_present compact t m k) eqn:P; [|reflexivity].
+        rewrite (present_amem t k m P) in E. discriminate. }
+      f_equal. destruct (key_ok k) eqn:K; [|reflexivity]. cbn [andb] in E. rewrite (adel_absent k m E). reflexivity.
+  Qed.
 
-Lemma kquery_ref q (m : list (bytes * bytes)) : MapK.kquery q m = SpecK.kquery q m.
-Proof. destruct q; reflexivity. Qed.
+  Ltac kv := unfold kget, kexp, value_at, expiry_at, is_present, klive, present, kstore, sstore, kvrec, sval in *.
+
+  Theorem kstep_ref ts c (m : kstore) : NoDup (map fst m) ->
+    MapK.kstep compact ts c m = SpecK.kstep compact ts c m.
+  Proof.
+    intros ND. destruct c as [k v|k v|k v|k d|k v|k off v|ks|k dur v|k dur|k|]; cbn [MapK.kstep SpecK.kstep]; try reflexivity.
+    - (* setnx *) destruct (negb (value_ok v) || negb (key_ok k)); [reflexivity|]. rewrite <- live_some.
+      destruct (kget compact ts k m); reflexivity.
+    - (* append *) destruct (negb (key_ok k)); [reflexivity|]. kv.
+      destruct (aget bytes_eqb k m) as [[e old]|]; [destruct (dead compact e ts)|]; destruct v; reflexivity.
+    - (* setrange *) destruct ((off <? 0) || (max_value_size <? off)); [reflexivity|]. kv.
+      destruct v as [|b v']; [destruct (negb (key_ok k)); [reflexivity|];
+        destruct (aget bytes_eqb k m) as [[e old]|]; [destruct (dead compact e ts)|]; reflexivity|].
+      destruct (max_value_size <? blen (b :: v') + off); [reflexivity|]. cbn [orb]. destruct (negb (key_ok k)); reflexivity.
+    - (* del *)
+      rewrite (del_keys_dedup ts ks [] m ND) by (intros k []).
+      rewrite (del_keys_nodup ts (dedup [] ks) (dedup_NoDup _ _) m ND).
+      do 4 f_equal. apply filter_ext. intros k. rewrite live_some. reflexivity.
+    - (* setex *) destruct (dur <=? 0); [reflexivity|]. cbn [orb]. destruct (negb (key_ok k) || negb (value_ok v)); reflexivity.
+  Qed.
+
+  Lemma kstep_nodup ts c (m : sstore) : NoDup (map fst m) -> NoDup (map fst (fst (SpecK.kstep compact ts c m))).
+  Proof.
+    intros ND. assert (P : forall k v, NoDup (map fst (aput bytes_eqb k v m))) by (intros; apply (nodup_aput bytes_eqb bytes_eqb_eq); exact ND).
+    destruct c as [k v|k v|k v|k d|k v|k off v|ks|k dur v|k dur|k|]; cbn [SpecK.kstep]; try exact ND;
+      try (repeat match goal with
+                  | |- context [if ?b then _ else _] => destruct b
+                  | |- context [match ?o with Some _ => _ | None => _ end] => destruct o
+                  | |- context [let '(_, _) := ?p in _] => destruct p
+                  | |- context [match ?l with [] => _ | _ :: _ => _ end] => destruct l
+                  end; cbn [fst]; auto; fail).
+    - rewrite (del_keys_dedup ts ks [] m ND) by (intros k []).
+      rewrite (del_keys_nodup ts (dedup [] ks) (dedup_NoDup _ _) m ND). cbn [fst].
+      generalize (dedup [] ks). intros l. revert m ND P. induction l as [|x l IH]; intros m ND P; cbn; [exact ND|].
+      apply IH.
+      + destruct (key_ok x); [apply (nodup_adel bytes_eqb); exact ND|exact ND].
+      + intros k v. apply (nodup_aput bytes_eqb bytes_eqb_eq). destruct (key_ok x); [apply (nodup_adel bytes_eqb); exact ND|exact ND].
+  Qed.
+
+  Lemma kquery_ref now q (m : kstore) : MapK.kquery compact now q m = SpecK.kquery compact now q m.
+  Proof.
+    destruct q; cbn [MapK.kquery SpecK.kquery]; try reflexivity.
+    - (* exists *) destruct keys as [|k [|k2 r]]; try reflexivity.
+      + rewrite live_some. reflexivity.
+      + do 3 f_equal. apply filter_ext. intros x. rewrite live_some. reflexivity.
+    - (* ttl *) destruct (negb compact); [reflexivity|]. destruct (negb (key_ok key)); [reflexivity|]. kv.
+      destruct (aget bytes_eqb key m) as [[e v]|]; [|reflexivity].
+      destruct (dead compact e now) eqn:D; [|reflexivity]. rewrite (dead_ttl _ _ _ D). reflexivity.
+  Qed.
+End K.
